@@ -151,3 +151,43 @@ contract(OSM, props=['C13'], returns='MatchedOperandSet?',
                           inv=['len(matched_operands) == ci', 'ci <= len(self._operand_sets)',
                                'len(operands) == len(self._operand_sets)', 'fresh(matched_operands)',
                                'forall(lambda j: implies(0 <= j and j < ci, elems(matched_operands)[j]._operand is not None))'])})
+
+# ---- inside a variant: explicitly listed operand combinations are tried before operand sets ---------------------------
+OPP = 'bespokeasm.assembler.model.operand_parser:OperandParser.find_matching_operands'
+SOM = 'bespokeasm.assembler.model.operand_parser:SpecificOperandsModel.find_operands_from_specific_operands'
+
+
+@spec(uninterpreted=True, sig=['SpecificOperandsModel', 'list[str]', 'int', 'set[str]', 'MemoryZoneManager', 'bool'],
+      heap_reads=['list[str]', 'set[str]'])
+def listed_accepts(model, operands, count, registers, memzone_manager):
+    """some explicitly listed operand combination accepts the operand list"""
+
+
+@spec(uninterpreted=True, sig=['MatchedOperandSet', 'bool'], heap_reads=[])
+def from_listed(matched):
+    """the match was produced by an explicitly listed combination (ghost)"""
+
+
+contract(SOM, props=['C13'], assumed=True, returns='MatchedOperandSet?',
+         reason='walks the listed combinations with the per-operand regex matchers (deterministic, effect-free); a match it '
+                'returns is tagged as coming from a listed combination',
+         may_raise={'SystemExit': 'True', 'NotImplementedError': 'True'},
+         ensures=['(result is not None) == listed_accepts(self, operands, target_operand_count, register_labels, memzone_manager)',
+                  'implies(result is not None, from_listed(value_of(result)))'],
+         modifies=[], allocates=True, no_frame_check=True)
+
+LISTED = ('(self._specific_operands_model is not None and listed_accepts(self._specific_operands_model, operands,'
+          ' cfg_int(self._config["count"]), register_labels, memzone_manager))')
+NO_OPS = '(cfg_int(self._config["count"]) == 0 and len(operands) == 0)'
+contract(OPP, name='order-of-matchers', props=['C13'], returns='MatchedOperandSet?',
+         requires=['"count" in self._config'],        # (established by OperandParser.__init__)
+         locals={'matched_operands': 'MatchedOperandSet?'},   # (annotated list[ParsedOperand] in the source, holds a MatchedOperandSet)
+         may_raise={'SystemExit': 'True', 'NotImplementedError': 'True', 'AttributeError': 'True'},
+         ensures=[
+             # nothing to match: the empty match
+             f'implies({NO_OPS}, result is not None and len(result._operands) == 0)',
+             # a listed combination that accepts the operands wins; the operand sets are not consulted
+             f'implies(not {NO_OPS} and {LISTED}, result is not None and from_listed(value_of(result)))',
+             # without one, the statement is matched by the operand sets or not at all
+             f'implies(not {NO_OPS} and not {LISTED} and self._operand_sets_model is None, result is None)'],
+         modifies=[], allocates=True, no_frame_check=True)
